@@ -40,6 +40,12 @@ class Ent:
     def val(self):
         return self.a
 
+    def kids_now(self):         # a NEW list at every call (computed on demand)
+        return list(self.kids)
+
+    def tags_now(self):
+        return list(self.tags)
+
     def heavy(self) -> bool:    # user code that itself calls a @predicate function (concretely: it is not in a block)
         return p_k_ge(self, 2)
 
